@@ -1,0 +1,93 @@
+//go:build verif
+
+// Contracts for the govc verifier (comment-only; see /verif/DESIGN.md).
+// This file contains no code. It is read as text by /verif/bin/govc.
+
+package uncompng
+
+//@ default mode int
+
+// The running Adler-32 state lives big-endian in the last four bytes of buf:
+// B in buf[0xFFFC:0xFFFE], A in buf[0xFFFE:0x10000]. Both stay below 65521.
+//@ spec adlerA(e *Encoder) int = int(e.buf[0xFFFE])*256 + int(e.buf[0xFFFF])
+//@ spec adlerB(e *Encoder) int = int(e.buf[0xFFFC])*256 + int(e.buf[0xFFFD])
+//@ spec adlerOK(e *Encoder) bool = adlerA(e) < 65521 && adlerB(e) < 65521
+
+//@ func crc32IEEE
+//@   prop C19
+//@   pure
+//@   loop 1 invariant rangeindex >= -1
+//@   loop 1 decreases len(b) - rangeindex
+
+//@ func (*Encoder).updateAdler32
+//@   prop C19
+//@   requires 0 <= ei && ei <= ej && ej <= 0xFFFC && adlerOK(e)
+//@   ensures adlerOK(e)
+//@   ensures forall(k, 0, 0xFFFC, e.buf[k] == old(e.buf[k]))
+//@   modifies mem(e.buf)
+//@   loop 1 invariant 0 <= ei && ei <= ej && a < 65521 && b < 65521
+//@   loop 1 invariant unchanged(mem(e.buf))
+//@   loop 1 decreases ej - ei
+//@   loop 2 invariant athead(1, ei) <= ei && ei <= end && end <= ej && end <= athead(1, ei) + 5552
+//@   loop 2 invariant a <= 65520 + 255*(ei - athead(1, ei))
+//@   loop 2 invariant 2*b <= 131040 + 131040*(ei - athead(1, ei)) + 255*(ei - athead(1, ei))*((ei - athead(1, ei)) + 1)
+//@   loop 2 invariant unchanged(mem(e.buf))
+//@   loop 2 decreases end - ei
+
+//@ spec be32(e *Encoder, o int) int = int(e.buf[o])*16777216 + int(e.buf[o+1])*65536 + int(e.buf[o+2])*256 + int(e.buf[o+3])
+
+//@ func (*Encoder).init
+//@   prop C19
+//@   requires 0 <= width && width <= 0xFFFFFF && 0 <= height && height <= 0xFFFFFF
+//@   ensures[signature] e.buf[0] == 0x89 && e.buf[1] == 'P' && e.buf[2] == 'N' && e.buf[3] == 'G' && e.buf[4] == 0x0D && e.buf[5] == 0x0A && e.buf[6] == 0x1A && e.buf[7] == 0x0A
+//@   ensures[ihdr] be32(e, 8) == 13 && e.buf[12] == 'I' && e.buf[13] == 'H' && e.buf[14] == 'D' && e.buf[15] == 'R' && be32(e, 16) == width && be32(e, 20) == height && e.buf[24] == byte(depth) && e.buf[26] == 0 && e.buf[27] == 0 && e.buf[28] == 0
+//@   ensures[colortype] e.buf[25] == ite(colorType == ColorTypeGray, 0, ite(colorType == ColorTypeRGBX, 2, ite(colorType == ColorTypeNRGBA, 6, 0xFF)))
+//@   ensures[idat] e.buf[0x25] == 'I' && e.buf[0x26] == 'D' && e.buf[0x27] == 'A' && e.buf[0x28] == 'T' && e.buf[0x29] == 0x78 && e.buf[0x2A] == 0x01
+//@   ensures[adler] adlerA(e) == 1 && adlerB(e) == 0
+//@   modifies mem(e.buf)
+
+// flush: ej is the end of the pixel payload in buf. The chunk is "first" when
+// buf[4] still holds the PNG signature byte 0x0D, "later" when it holds 'I'.
+//@ spec isFirst(e *Encoder) bool = e.buf[4] == 0x0D
+//@ spec startOf(e *Encoder) int = ite(isFirst(e), 0x30, 0x0D)
+
+//@ func (*Encoder).flush
+//@   prop C19
+//@   mode bv
+//@   requires w != nil && adlerOK(e) && startOf(e) <= ej && ej <= 0xFFF8
+//@   ensures implies(!final, adlerOK(e))
+//@   ensures implies(result == nil && !final, !isFirst(e) && e.buf[4] == 'I' && e.buf[5] == 'D' && e.buf[6] == 'A' && e.buf[7] == 'T')
+//@   modifies mem(e.buf)
+//@   assert@call Write#1 [inbuf] len(arg_p) == old(ej) + 4 && base(arg_p) == base(e.buf[:]) && off(arg_p) == 0
+//@   assert@call Write#1 [chunklen] be32(e, ite(old(isFirst(e)), 0x21, 0)) == old(ej) - ite(old(isFirst(e)), 0x29, 0x08)
+//@   assert@call Write#1 [deflate] e.buf[old(startOf(e))-5] == 0 && int(e.buf[old(startOf(e))-4]) + 256*int(e.buf[old(startOf(e))-3]) == old(ej) - old(startOf(e)) && int(e.buf[old(startOf(e))-2]) == 255 - int(e.buf[old(startOf(e))-4]) && int(e.buf[old(startOf(e))-1]) == 255 - int(e.buf[old(startOf(e))-3])
+//@   assert@call Write#1 [idat] implies(old(isFirst(e)), e.buf[0x25] == old(e.buf[0x25]) && e.buf[0x26] == old(e.buf[0x26]) && e.buf[0x27] == old(e.buf[0x27]) && e.buf[0x28] == old(e.buf[0x28]))
+//@   assert@call Write#2 [chunklen] be32(e, ite(old(isFirst(e)), 0x21, 0)) == old(ej) + 4 - ite(old(isFirst(e)), 0x29, 0x08)
+//@   assert@call Write#2 [deflate] e.buf[old(startOf(e))-5] == 1 && int(e.buf[old(startOf(e))-4]) + 256*int(e.buf[old(startOf(e))-3]) == old(ej) - old(startOf(e)) && int(e.buf[old(startOf(e))-2]) == 255 - int(e.buf[old(startOf(e))-4]) && int(e.buf[old(startOf(e))-1]) == 255 - int(e.buf[old(startOf(e))-3])
+//@   assert@call Write#2 [adler] implies(old(ej) + 20 <= 0xFFFC, int(e.buf[old(ej)])*256 + int(e.buf[old(ej)+1]) == adlerB(e) && int(e.buf[old(ej)+2])*256 + int(e.buf[old(ej)+3]) == adlerA(e))
+//@   assert@call Write#2 [iend] len(arg_p) == old(ej) + 8 || (len(arg_p) == old(ej) + 20 && e.buf[old(ej)+8] == 0 && e.buf[old(ej)+9] == 0 && e.buf[old(ej)+10] == 0 && e.buf[old(ej)+11] == 0 && e.buf[old(ej)+12] == 'I' && e.buf[old(ej)+13] == 'E' && e.buf[old(ej)+14] == 'N' && e.buf[old(ej)+15] == 'D' && e.buf[old(ej)+16] == 0xAE && e.buf[old(ej)+17] == 0x42 && e.buf[old(ej)+18] == 0x60 && e.buf[old(ej)+19] == 0x82)
+//@   assert@call Write#3 [iend] len(arg_p) == 12 && e.buf[0] == 0 && e.buf[1] == 0 && e.buf[2] == 0 && e.buf[3] == 0 && e.buf[4] == 'I' && e.buf[5] == 'E' && e.buf[6] == 'N' && e.buf[7] == 'D' && e.buf[8] == 0xAE && e.buf[9] == 0x42 && e.buf[10] == 0x60 && e.buf[11] == 0x82
+
+// Encode. API pre-condition (implicit in the doc comment): pix holds height rows
+// of stride bytes each, and a row holds the width*bytesPerPixel bytes read.
+//@ spec bpp(depth Depth, colorType ColorType) int = ite(colorType == ColorTypeGray, 1, 4) * ite(depth == Depth16, 2, 1)
+
+//@ func (*Encoder).Encode
+//@   prop C19
+//@   requires w != nil && 0 <= stride && stride <= 0x7FFFFFFF
+//@   requires implies(0 < height && height <= 0xFFFFFF && 0 <= width && width <= 0xFFFFFF, height*stride <= len(pix) && bpp(depth, colorType)*width <= stride)
+//@   modifies mem(e.buf)
+//@   loop 1 invariant 0 <= y && y <= height && 0x0D <= ej && ej <= 0xFFF8 && adlerOK(e) && implies(isFirst(e), 0x30 <= ej)
+//@   loop 1 decreases height - y
+//@   loop 2 invariant 0 <= x && x <= width && len(row) == 1*(width - x) && 0x0D <= ej && ej <= 0xFFF8 && adlerOK(e) && implies(isFirst(e), 0x30 <= ej) && 0 <= y && y < height
+//@   loop 2 decreases width - x
+//@   loop 3 invariant 0 <= x && x <= width && len(row) == 4*(width - x) && 0x0D <= ej && ej <= 0xFFF8 && adlerOK(e) && implies(isFirst(e), 0x30 <= ej) && 0 <= y && y < height
+//@   loop 3 decreases width - x
+//@   loop 4 invariant 0 <= x && x <= width && len(row) == 4*(width - x) && 0x0D <= ej && ej <= 0xFFF8 && adlerOK(e) && implies(isFirst(e), 0x30 <= ej) && 0 <= y && y < height
+//@   loop 4 decreases width - x
+//@   loop 5 invariant 0 <= x && x <= width && len(row) == 2*(width - x) && 0x0D <= ej && ej <= 0xFFF8 && adlerOK(e) && implies(isFirst(e), 0x30 <= ej) && 0 <= y && y < height
+//@   loop 5 decreases width - x
+//@   loop 6 invariant 0 <= x && x <= width && len(row) == 8*(width - x) && 0x0D <= ej && ej <= 0xFFF8 && adlerOK(e) && implies(isFirst(e), 0x30 <= ej) && 0 <= y && y < height
+//@   loop 6 decreases width - x
+//@   loop 7 invariant 0 <= x && x <= width && len(row) == 8*(width - x) && 0x0D <= ej && ej <= 0xFFF8 && adlerOK(e) && implies(isFirst(e), 0x30 <= ej) && 0 <= y && y < height
+//@   loop 7 decreases width - x
